@@ -205,14 +205,21 @@ theorem refIssues_eq (cols : List Col) (h : ∀ c ∈ cols, Good c.entry c.ctype
 
 /-! ## the per-entry loop -/
 
-def poundCountP (t : Option CType) (s : Str) (col key : Option Str) : List Issue :=
+def poundCountP (O : Oracle) (t : Option CType) (s : Str) (col key : Option Str) : List Issue :=
   match t with
-  | some .value => if countHash s != 1 then [mk .poundValue col key] else []
-  | some .categorical => if countHash s != 0 then [mk .poundCategory col key] else []
+  | some .value => if treeHash O s != 1 then [mk .poundValue col key] else []
+  | some .categorical => if treeHash O s != 0 then [mk .poundCategory col key] else []
   | _ => []
 
-theorem poundCount_eq (t : Option CType) (s : Str) (col key : Option Str)
-    (h : t = some .value ∨ t = some .categorical) : poundCount t s col key = .ok (poundCountP t s col key) := by
+/-- with the `shrink_defs` guard the count never raises -/
+theorem poundOf_eq (O : Oracle) (s : Str) : poundOf .fixed O s = .ok (treeHash O s) := by
+  simp [poundOf, Guards.fixed]
+
+theorem poundCount_eq (O : Oracle) (t : Option CType) (s : Str) (col key : Option Str)
+    (h : t = some .value ∨ t = some .categorical) :
+    poundCount .fixed O t s col key = .ok (poundCountP O t s col key) := by
+  unfold poundCount
+  rw [poundOf_eq]
   rcases h with h | h <;> subst h <;> rfl
 
 def fullIssuesP (O : Oracle) (rs : List (Str × List Str)) (s : Str) (col key : Option Str) : List Issue :=
@@ -245,14 +252,14 @@ def entryIssuesP (O : Oracle) (rs : List (Str × List Str)) (isRefCol : Bool) (t
     (key : Option Str) (s : Str) : Nat × List Issue :=
   (O.defCount s,
    (O.basic s).map (ext (some col) key)
-   ++ (if O.defCount s == 0 then poundCountP t s (some col) key else [])
+   ++ (if O.defCount s == 0 then poundCountP O t s (some col) key else [])
    ++ (if isRefCol then [] else fullIssuesP O rs s (some col) key))
 
 theorem entryIssues_eq (O : Oracle) (rs : List (Str × List Str)) (isRefCol : Bool) (t : Option CType) (col : Str)
     (key : Option Str) (s : Str) (h : t = some .value ∨ t = some .categorical) :
     entryIssues .fixed O rs isRefCol t col key s = .ok (entryIssuesP O rs isRefCol t col key s) := by
   unfold entryIssues entryIssuesP
-  simp only [poundCount_eq _ _ _ _ h, fullIssues_eq]
+  simp only [poundCount_eq _ _ _ _ _ h, fullIssues_eq]
   cases O.defCount s == 0 <;> cases isRefCol <;> rfl
 
 def columnIssuesP (O : Oracle) (rs : List (Str × List Str)) (allRefCols : List Str) (c : Col) : List Issue :=
@@ -423,7 +430,7 @@ instance : DecidableEq (Except Exn (List Issue)) := fun a b =>
   | .error _, .ok _ => isFalse (by intro e; cases e)
 
 /-- a string layer that never complains -/
-def quiet : Oracle := ⟨fun _ => [], fun _ => [], fun _ => 0, fun t _ => t, []⟩
+def quiet : Oracle := { basic := fun _ => [], full := fun _ => [], defCount := fun _ => 0, defIssues := [] }
 
 /-- `{"T": "r"}` (e.g. `{"TaskName": "rest"}`): `'str' object has no attribute 'get'` -/
 theorem unfixed_raises_nondict_entry :
@@ -440,6 +447,18 @@ theorem unfixed_raises_string_top :
 /-- `{"o": {"HED": "{c}"}}` (e.g. `{"onset": {"HED": "{col1}"}}`): `KeyError` in `refs_strings[key]` -/
 theorem unfixed_raises_unknown_ref :
     validate .unfixed quiet (.obj [(['o'], .obj [(HED, .str ['{', 'c', '}'])])]) = .error .keyError := by decide
+
+/-- a string layer that resolves the tags spelled `D…` to `Def-expand` and is otherwise quiet -/
+def quietD : Oracle := { quiet with isDefExpand := fun t => t.head? == some 'D' }
+
+/-- `{"a": {"HED": {"x": "(D,D)"}}}` (e.g. `"(Def-expand/A, Def-expand/B)"`): `shrink_defs` looks for the group a second
+time after replacing it: `KeyError` out of `_validate_pound_sign_count` -/
+theorem unfixed_raises_two_def_expand :
+    validate { Guards.fixed with shrink := false } quietD
+      (.obj [(['a'], .obj [(HED, .obj [(['x'], .str ['(', 'D', ',', 'D', ')'])])])]) = .error .keyError := by decide
+
+example : validate .fixed quietD (.obj [(['a'], .obj [(HED, .obj [(['x'], .str ['(', 'D', ',', 'D', ')'])])])]) = .ok [] := by
+  decide
 
 /- with the guards the same documents are answered with issues -/
 example : validate .fixed quiet (.obj [(['T'], .str ['r'])]) = .ok [] := by decide
@@ -710,14 +729,14 @@ theorem mem_loop (O : Oracle) (cols : List (Str × Json)) {n : Str} {e : Json} {
 (`PLACEHOLDER_INVALID`). -/
 theorem fault_pound_value (O : Oracle) (cols : List (Str × Json)) (n : Str) (kvs : List (Str × Json)) (s : Str)
     (hne : anyError (earlyP (.obj cols)) = false) (hm : (n, .obj kvs) ∈ cols) (hl : lookup HED kvs = some (.str s))
-    (hc : countHash s ≠ 1) (hd : O.defCount s = 0) : mk .poundValue (some n) none ∈ validateP O (.obj cols) := by
+    (hc : treeHash O s ≠ 1) (hd : O.defCount s = 0) : mk .poundValue (some n) none ∈ validateP O (.obj cols) := by
   apply mem_loop O cols hne hm
   simp [columnIssuesP, detectP, hl, stringsP, entryIssuesP, hd, poundCountP, keyCtx, hc]
 
 /-- **Category entry containing `#`** (nothing else wrong, no definition in the entry): flagged (`PLACEHOLDER_INVALID`). -/
 theorem fault_pound_category (O : Oracle) (cols : List (Str × Json)) (n : Str) (kvs vs : List (Str × Json)) (k s : Str)
     (hne : anyError (earlyP (.obj cols)) = false) (hm : (n, .obj kvs) ∈ cols) (hl : lookup HED kvs = some (.obj vs))
-    (hkv : (k, .str s) ∈ vs) (hc : countHash s ≠ 0) (hd : O.defCount s = 0) :
+    (hkv : (k, .str s) ∈ vs) (hc : treeHash O s ≠ 0) (hd : O.defCount s = 0) :
     mk .poundCategory (some n) (keyCtx (vs.filterMap strOf) k) ∈ validateP O (.obj cols) := by
   apply mem_loop O cols hne hm
   have hks : (k, s) ∈ vs.filterMap strOf := List.mem_filterMap.mpr ⟨(k, .str s), hkv, rfl⟩
@@ -726,18 +745,38 @@ theorem fault_pound_category (O : Oracle) (cols : List (Str × Json)) (n : Str) 
   refine Or.inl ⟨_, ⟨(k, s), hks, rfl⟩, ?_⟩
   simp [entryIssuesP, hd, poundCountP, hc]
 
+/-- an entry with unbalanced parentheses has an empty tree: nothing is printed, no `#` is counted -/
+theorem treeHash_unbalanced (O : Oracle) (s : Str) (e : Tree.BuildErr) (h : Tree.build s = .error e) : treeHash O s = 0 := by
+  simp [treeHash, entryTree, Tree.construct, h, dropList, hashList]
+
+/-- **Value column with unbalanced parentheses** (nothing else wrong at the sidecar level): besides what the string layer
+says about the parentheses, the sidecar layer reports `PLACEHOLDER_INVALID` — whatever the number of `#` written. -/
+theorem fault_pound_unbalanced (O : Oracle) (cols : List (Str × Json)) (n : Str) (kvs : List (Str × Json)) (s : Str)
+    (e : Tree.BuildErr) (hne : anyError (earlyP (.obj cols)) = false) (hm : (n, .obj kvs) ∈ cols)
+    (hl : lookup HED kvs = some (.str s)) (hb : Tree.build s = .error e) (hd : O.defCount s = 0) :
+    mk .poundValue (some n) none ∈ validateP O (.obj cols) :=
+  fault_pound_value O cols n kvs s hne hm hl (by rw [treeHash_unbalanced O s e hb]; decide) hd
+
+/- the count is made on the tree: `{#}` is a reference tag and is removed; `(D/#,(L/#))` shrinks to `D/#`;
+   `(L/#` has no tree -/
+example : treeHash quiet ['{', '#', '}'] = 0 ∧ countHash ['{', '#', '}'] = 1 := by decide
+example : treeHash quietD ['(', 'D', '/', '#', ',', '(', 'L', '/', '#', ')', ')'] = 1 := by decide
+example : treeHash quiet ['(', 'L', '/', '#'] = 0 := by decide
+example : treeHash quiet ['(', '{', 'a', '}', ')', ',', 'L', '/', '#'] = 1
+    ∧ (entryTree ['(', '{', 'a', '}', ')', ',', 'L', '/', '#']).length = 1 := by decide
+
 /-! ## a well-formed sidecar with valid entries has no error -/
 
 /-- The structural rules of the property for the entry `e` of column `n` of the sidecar `cols`. -/
-structure EntryOK (cols : List (Str × Json)) (n : Str) (e : Json) : Prop where
+structure EntryOK (O : Oracle) (cols : List (Str × Json)) (n : Str) (e : Json) : Prop where
   /-- `HED` is not used as a column name -/
   name : reservedColumn n = false
   /-- no HED at all (and no `HED` key below), or a value string with exactly one `#`, or a non-empty map of non-empty
   strings without `#` whose keys are not `n/a` -/
   shape : (detectP false e = some .ignore ∧ hasKey HED e = false)
-    ∨ (∃ kvs s, e = .obj kvs ∧ lookup HED kvs = some (.str s) ∧ countHash s = 1)
+    ∨ (∃ kvs s, e = .obj kvs ∧ lookup HED kvs = some (.str s) ∧ countHash s ≠ 0 ∧ treeHash O s = 1)
     ∨ (∃ kvs vs, e = .obj kvs ∧ lookup HED kvs = some (.obj vs) ∧ vs ≠ [] ∧
-        ∀ kv ∈ vs, ∃ s, kv.2 = .str s ∧ s ≠ [] ∧ reservedCategory kv.1 = false ∧ countHash s = 0)
+        ∀ kv ∈ vs, ∃ s, kv.2 = .str s ∧ s ≠ [] ∧ reservedCategory kv.1 = false ∧ treeHash O s = 0)
   /-- braces are balanced; references name `HED` or a column that bears HED, not the column itself, and the column
   referred to contains no reference -/
   refs : ∀ ks ∈ screened e, braces ks.2 = [] ∧ ∀ r ∈ findRefs ks.2,
@@ -752,7 +791,7 @@ structure OracleOK (O : Oracle) (cols : List (Str × Json)) : Prop where
   full : ∀ t, ∀ c ∈ O.full t, C08.sevWarning ≤ c.2
   defs : ∀ i ∈ O.defIssues, i.isError = false
 
-theorem wf_types {cols : List (Str × Json)} {n : Str} {e : Json} (h : EntryOK cols n e) :
+theorem wf_types {O : Oracle} {cols : List (Str × Json)} {n : Str} {e : Json} (h : EntryOK O cols n e) :
     detectP true e = detectP false e := by
   rcases h.shape with ⟨hi, _⟩ | ⟨kvs, s, rfl, hl, hc⟩ | ⟨kvs, vs, rfl, hl, _, hall⟩
   · cases e with
@@ -770,7 +809,7 @@ theorem wf_types {cols : List (Str × Json)} {n : Str} {e : Json} (h : EntryOK c
       simp [hs, isStr]
     simp [detectP, hl, this]
 
-theorem wf_structure {cols : List (Str × Json)} {n : Str} {e : Json} (h : EntryOK cols n e) :
+theorem wf_structure {O : Oracle} {cols : List (Str × Json)} {n : Str} {e : Json} (h : EntryOK O cols n e) :
     columnStructureP (n, e) = [] := by
   rcases h.shape with ⟨hi, hk⟩ | ⟨kvs, s, rfl, hl, hc⟩ | ⟨kvs, vs, rfl, hl, hne, hall⟩
   · simp [columnStructureP, h.name, hi, hk]
@@ -806,7 +845,7 @@ theorem possible_iff (cols : List (Str × Json)) (r : Str) :
     · rintro (h | h); exact Or.inr h; exact Or.inl h
     · rintro (h | h); exact Or.inr h; exact Or.inl h
 
-theorem wf_colRefs {cols : List (Str × Json)} {n : Str} {e : Json} (h : EntryOK cols n e) :
+theorem wf_colRefs {O : Oracle} {cols : List (Str × Json)} {n : Str} {e : Json} (h : EntryOK O cols n e) :
     (colRefsP (possibleRefs (colsP cols)) ⟨n, e, detectP true e⟩).2.2 = [] := by
   simp only [colRefsP, List.append_eq_nil_iff, List.flatMap_eq_nil_iff]
   refine ⟨?_, ?_⟩
@@ -824,7 +863,7 @@ theorem wf_colRefs {cols : List (Str × Json)} {n : Str} {e : Json} (h : EntryOK
       exact (h.refs ks hks).2 n hn |>.2.1 rfl
     rw [this]; rfl
 
-theorem wf_early (cols : List (Str × Json)) (h : ∀ ne ∈ cols, EntryOK cols ne.1 ne.2) : earlyP (.obj cols) = [] := by
+theorem wf_early {O : Oracle} (cols : List (Str × Json)) (h : ∀ ne ∈ cols, EntryOK O cols ne.1 ne.2) : earlyP (.obj cols) = [] := by
   simp only [earlyP, loadP, structureP, List.nil_append, List.append_eq_nil_iff, List.flatMap_eq_nil_iff, refIssuesP]
   have hper : ∀ p ∈ (colsP cols).map (colRefsP (possibleRefs (colsP cols))),
       ∃ ne ∈ cols, p = colRefsP (possibleRefs (colsP cols)) ⟨ne.1, ne.2, detectP true ne.2⟩ := by
@@ -866,7 +905,7 @@ theorem lookup_of_mem_keys (r : Str) (rs : List (Str × α)) (h : r ∈ rs.map (
 
 /-- **Well-formed sidecars**: if every column obeys the structural rules and the string layer finds no error in the
 entries and in the strings assembled from them, validation reports no error-severity issue. -/
-theorem wellformed_ok (O : Oracle) (cols : List (Str × Json)) (hwf : ∀ ne ∈ cols, EntryOK cols ne.1 ne.2)
+theorem wellformed_ok (O : Oracle) (cols : List (Str × Json)) (hwf : ∀ ne ∈ cols, EntryOK O cols ne.1 ne.2)
     (hO : OracleOK O cols) : ∀ i ∈ validateP O (.obj cols), i.isError = false := by
   have hearly := wf_early cols hwf
   unfold validateP
@@ -961,7 +1000,7 @@ example : validate .fixed { quiet with full := fun _ => [(['W'], 10)] } (.obj ex
 example : screened (.obj [(HED, .obj [(['x'], .str ['R']), (['y'], .str ['{', 'b', '}'])])])
     = [(['x'], ['R']), (['y'], ['{', 'b', '}'])] := by decide
 
-example : ∀ ne ∈ exampleCols, EntryOK exampleCols ne.1 ne.2 := by
+example : ∀ ne ∈ exampleCols, EntryOK quiet exampleCols ne.1 ne.2 := by
   have hb : screened (.obj [(HED, .str ['L', '/', '#'])]) = [([], ['L', '/', '#'])] := by decide
   intro ne hne
   simp only [exampleCols, List.mem_cons, List.not_mem_nil, or_false] at hne
